@@ -1,5 +1,10 @@
-//! Family binary (checks are registered here).
+//! Family binary `gs_unit`: gossipsub unit-level properties (codec, backoff, caches, config,
+//! subscription filters).
+
+mod c31;
+mod c32;
+mod c33;
 
 fn main() {
-    mc::main_dispatch(&[]);
+    mc::main_dispatch(&[("C31", c31::run, c31::META), ("C32", c32::run, c32::META), ("C33", c33::run, c33::META)]);
 }
